@@ -28,7 +28,10 @@ RULE = ("seeded generator over groups of 2-4 conditions (PINN, SingleModule, Mea
         "user-supplied UserFunction objects / plain functions with declared defaults (data functions f(x, t=default), one "
         "residual body, sampler filter functions) shared by conditions whose samplers provide different variable sets "
         "((x,t) products in both orders or product domains vs x only, partly with equal point counts); fun/args/defaults of "
-        "every user-supplied UserFunction are snapshotted.  A case is non-trivial when at least two conditions "
+        "every user-supplied UserFunction are snapshotted, (c) 'staticof' groups: one random base sampler object made "
+        "static separately for 2-4 conditions (make_static() and make_static(resample_interval=2|3), random order, 4-6 "
+        "rounds, torch seeded per construction / evaluation); periodic conditions without further variables use the "
+        "default EmptySampler or the static PointSampler.empty().  A case is non-trivial when at least two conditions "
         "were compared alone vs in company in every round; distinct = (sorted kinds, sharing flags, static pattern, "
         "#data functions, shared sampler, group mode and its variable-set / wrapping pattern)")
 REQUIRED_REACH = ["Condition._setup_data_functions", "StaticSampler.sample_points", "PeriodicCondition.__init__",
@@ -61,12 +64,14 @@ def gen_cases(seed, tier):
     cases = []
     for i in range(n):
         u = rng.random()
-        if u < 0.58:
+        if u < 0.52:
             cases.append(G.gen_group_case(rng))
-        elif u < 0.79:
+        elif u < 0.70:
             cases.append(G.gen_samekey_group(rng))
-        else:
+        elif u < 0.88:
             cases.append(G.gen_varsets_group(rng))
+        else:
+            cases.append(G.gen_staticof_group(rng))
     return cases
 
 
@@ -74,7 +79,7 @@ def _cls(g):
     from .. import c04_world as W
     kinds = sorted(c["kind"] for c in g["conds"])
     st = "".join(sorted({"static_inf": "S", "static_finite_interval": "F", "nonstatic": "n", "empty": "e",
-                         "adaptive": "a"}[W.sampler_class(c["sampler"])] for c in g["conds"]))
+                         "static_empty": "E", "adaptive": "a"}[W.sampler_class(c["sampler"])] for c in g["conds"]))
     sh = g["share"]
     nd = len(g.get("data", []))
     shs = any("share" in c["sampler"] for c in g["conds"])
@@ -184,7 +189,7 @@ def _eligible_repeat(c):
         return False
     cl = W.sampler_class(c["sampler"])
     if c["kind"] == "periodic":
-        return cl in ("static_inf", "empty")
+        return cl in ("static_inf", "empty", "static_empty")
     if c["kind"] == "integro":
         return cl == "static_inf" and W.sampler_class(c["int_sampler"]) == "static_inf"
     return cl == "static_inf"
@@ -222,11 +227,15 @@ def _build(g, i, world, shared, watch):
         W.seed_sampler(fs.parameter_sampler, c["seed"] % (2 ** 30))
         kw["model"] = (net, twin)
         kw["fset"] = fs
-    elif shared.get("models") is not None:
+    else:
+        models = shared["models"] if shared.get("models") is not None else {}
         key = json.dumps(c["model"], sort_keys=True)
-        if key not in shared["models"]:
-            shared["models"][key] = D.build_model(c["model"], c["vars"])
-        kw["model"] = shared["models"][key]
+        if key not in models:
+            models[key] = D.build_model(c["model"], c["vars"])
+        kw["model"] = models[key]
+    if g.get("seed_ops"):
+        # after everything that may consume random numbers depending on the company (a shared model is built only once)
+        torch.manual_seed(g["seed"] % (2 ** 30) + 1000 * i + 999)
     b = W.build_condition(c, world, trace, **kw)
     b.router = router
     return b
@@ -270,8 +279,12 @@ def run_world(g, company, res):
         m.update(kw)
         return m
 
-    def guarded(i, what, fn, watch):
+    def guarded(i, what, fn, watch, op=999):
         watch.take()
+        if g.get("seed_ops"):
+            # deterministic user samplers for groups that share a random base sampler: what a condition draws depends on
+            # the operation (condition, construction / evaluation number), not on the company
+            torch.manual_seed(g["seed"] % (2 ** 30) + 1000 * i + op)
         try:
             out = fn()
         except Inconclusive:
@@ -331,7 +344,7 @@ def run_world(g, company, res):
         if getattr(b, "router", None) is not None:
             b.router.target = b.trace
         call = (lambda: b.cond(iteration=r)) if g["conds"][i]["kind"] == "pideeponet" else (lambda: b.cond())
-        loss, ok = guarded(i, "evaluation %d" % r, call, watch)
+        loss, ok = guarded(i, "evaluation %d" % r, call, watch, op=r)
         if not ok:
             return False
         C["evaluations"] = C.get("evaluations", 0) + 1
@@ -349,7 +362,10 @@ def run_world(g, company, res):
                 return False
             C["static_returns_checked"] = C.get("static_returns_checked", 0) + (1 if ev else 0)
         # data arguments belong to the rows this condition's own samplers produced in this call
-        dv, j, cnt = W.judge_call(b, r, loss, only=("data",), judge_loss=False)
+        # (periodic conditions: additionally the loss against the reference recomputed from the recorded points)
+        per = g["conds"][i]["kind"] == "periodic"
+        dv, j, cnt = W.judge_call(b, r, loss, only=("data",), judge_loss=per)
+        C["periodic_losses_judged"] = C.get("periodic_losses_judged", 0) + cnt.get("loss_judged", 0)
         res["judged"] += j
         C["data_args_judged"] = C.get("data_args_judged", 0) + cnt.get("data_args", 0)
         for v in dv:
